@@ -108,6 +108,25 @@ func (fc *FC) errf(format string, args ...interface{}) {
 // EvalCond decides a condition under assumptions (Unknown when it cannot).
 func (x *Extractor) EvalCond(c *RF, assume []Assumption) Tri {
 	s := x.S
+	for _, a := range assume {
+		if a.Cond != nil && a.Cond.Equal(c) {
+			if a.True {
+				return True
+			}
+			return False
+		}
+	}
+	sub0 := map[AtomID]*RF{}
+	for _, a := range assume {
+		if a.Atom != nil {
+			if aa := a.Atom.SingleAtom(); aa != nil {
+				sub0[aa.ID] = a.Val
+			}
+		}
+	}
+	if len(sub0) > 0 {
+		c = c.Subst(sub0)
+	}
 	at := c.SingleAtom()
 	if at == nil {
 		return Unknown
@@ -1044,6 +1063,10 @@ func (x *Extractor) CallFn(f *ssa.Function, args []*RF) *RF {
 // is not inlinable (loops, too large, recursion).
 func (x *Extractor) inline(f *ssa.Function, args []*RF, parent *FC) *RF {
 	if f.Blocks == nil || len(f.Blocks) > x.MaxInlineBlocks || x.depth[f] > 0 || len(args) != len(f.Params) {
+		return nil
+	}
+	// only value-returning helpers: a pointer/slice/func result denotes memory, not a formula
+	if res := f.Signature.Results(); res.Len() == 0 || ptrLike(res) {
 		return nil
 	}
 	x.depth[f]++
